@@ -45,6 +45,9 @@ CHECKS = {
  "C17": ("small-scope enumeration in killable workers (E1): 21 diverging/converging program shapes and their pairs x seeds x every limit in {1..12,16,32,100} x store kinds, real engine with WithCreatedFactLimit compared with a capped reference evaluation",
          "bounded-exhaustive: every (program, seed, limit, store) in scope is run in a worker process (ulimit -v, 60 s deadline, re-run twice before 'did not return' is believed): returns; growth bounded; nil error => complete model; infinite model => error",
          "convergence decided by the reference evaluator with caps; growth bound instantiated as 4*(L+1)*(rules+1)+8; errors on converging programs (limit or join width exceeded) are correct behaviour", "4 C17"),
+ "C10": ("exhaustive enumeration of short token strings and of all single-edit neighbours of a corpus, in killable workers (E1): every input is offered to the parser entry points / escape decoder / fact-file readers; units that parse go through AnalyzeAndCheckBounds and EvalProgram under a fact limit",
+         "bounded-exhaustive within token-string length k and edit distance 1 of 19 sources and 6 fact files: each step must return a value or an error; panics are caught per input, hangs by a per-input watchdog in a worker process",
+         "not coverage-guided fuzzing: long adversarial inputs are outside the bound; header counts near 2^32 (huge allocation) are noted, not executed", "4 C10"),
 }
 NOT_APPLICABLE = {
 }
